@@ -33,6 +33,12 @@ pub broadcast axiom fn axiom_string_obeys_cmp()
 pub broadcast axiom fn axiom_string_cmp_is_lex(a: String, b: String)
     ensures #[trigger] a.cmp_spec(&b) == lex_chars(a@, b@);
 
+// TRUSTED[str-ord-obeys]: `impl Ord for str` is a lawful total order (std documentation).
+pub broadcast axiom fn axiom_str_obeys_cmp()
+    ensures #[trigger] <str as OrdSpec>::obeys_cmp_spec();
+// TRUSTED[str-ord-lex]: string slices compare lexicographically by byte value, which equals code-point order (see string-ord-lex).
+pub broadcast axiom fn axiom_str_cmp_is_lex(a: &str, b: &str)
+    ensures #[trigger] a.cmp_spec(b) == lex_chars(a@, b@);
 
 // TRUSTED[ordering-eq]: `==` on core::cmp::Ordering (derived PartialEq of a field-less enum) is structural equality.
 pub broadcast axiom fn axiom_ordering_obeys_eq()
